@@ -103,7 +103,7 @@ def r2(ctx):
     cfg = ana.cfg(st)
     upd = ms.methods.get("_update_cluster_membership")
     if upd is None:
-        raise AnalysisError("ModelState._update_cluster_membership not found")
+        upd = ana.func(MS + "._update_cluster_membership")    # renamed: recognised by its place in the call graph (loader.match_renamed)
     calls = [cfg.node_of(c.node) for c in calls_to(ana, st, upd.qualname)]
     for s in stores:
         ok = bool(calls) and any(cfg.paths_avoiding(s.node, {c.id}, {cfg.exit.id}, kinds=("n",)) is None for c in calls)
